@@ -87,6 +87,23 @@ func ruleCascade(w *World, r *Report) {
 		ff := stateFactField[owner]
 		var rem, dd *ssa.Function
 		for _, fn := range w.MethodsOf(n) {
+			if fn.Name() == "deleteDependencies" {
+				dd = fn
+			}
+		}
+		callsDD := func(fn *ssa.Function) bool {
+			yes := false
+			allInstrs(fn, func(in ssa.Instruction) {
+				if c := callOf(in); c != nil && dd != nil && c.StaticCallee() == dd {
+					yes = true
+				}
+			})
+			return yes
+		}
+		// a function that deletes from the fact map and does not cascade itself is a helper (`drop`, which also keeps
+		// a counter or a reverse index in step): the removal primitive is the function that calls it and cascades
+		delHelper := map[*ssa.Function]bool{}
+		for _, fn := range w.MethodsOf(n) {
 			direct := false
 			allInstrs(fn, func(in ssa.Instruction) {
 				if c := callOf(in); c != nil {
@@ -95,14 +112,31 @@ func ruleCascade(w *World, r *Report) {
 					}
 				}
 			})
-			if direct {
-				if rem != nil {
-					undecided("CASC: %s has more than one function that deletes from %s (%s, %s)", owner, ff, fname(rem), fname(fn))
-				}
-				rem = fn
+			if !direct {
+				continue
 			}
-			if fn.Name() == "deleteDependencies" {
-				dd = fn
+			cands := []*ssa.Function{fn}
+			if !callsDD(fn) {
+				var up []*ssa.Function
+				for _, e := range w.Callers(fn) {
+					cf := e.Caller.Func
+					if cf == nil || isTestFile(w, cf) {
+						continue
+					}
+					if o2, ok := stateOwnerOf(a, cf); ok && o2 == owner && callsDD(cf) {
+						up = append(up, cf)
+					}
+				}
+				if len(up) > 0 {
+					delHelper[fn] = true
+					cands = up
+				}
+			}
+			for _, c := range cands {
+				if rem != nil && rem != c {
+					undecided("CASC: %s has more than one function that deletes from %s (%s, %s)", owner, ff, fname(rem), fname(c))
+				}
+				rem = c
 			}
 		}
 		if rem == nil || dd == nil {
@@ -157,6 +191,9 @@ func ruleCascade(w *World, r *Report) {
 			c := callOf(in)
 			if c == nil {
 				return false
+			}
+			if f := c.StaticCallee(); f != nil && delHelper[f] {
+				return true
 			}
 			b, ok := c.Value.(*ssa.Builtin)
 			return ok && b.Name() == "delete" && len(c.Args) == 2 && isFieldLoad(c.Args[0], owner, ff)
